@@ -66,6 +66,9 @@ func (w *World) checkNode(n *Node, st *State, phase string) {
 	if n.cfg.Kind == "stump" && !n.tainted {
 		w.stumpCoincident(n, st, seed)
 	}
+	if n.cfg.Kind == "light" && w.on("light") {
+		w.lightCoincident(n, st, seed)
+	}
 }
 
 // observe compares everything observable through the public API with the model.
